@@ -15,7 +15,7 @@ from checks.c01 import A, L, X, Y, Z, make_world, names
 PROPERTY = "C02"
 LEVEL = "exploration"
 RULE = ("all queries of the negation-normal conjunctive/else-if fragment with <= n leaves (thorough: additionally 4 leaves over "
-        "a core of four atoms): atoms and negated atoms "
+        "a core of six atoms): atoms and negated atoms "
         "(comparisons, Predicate subclasses, symbolic functions), and_, and or_ only between operands over the same "
         "variable set (computed by the generator), 1-3 variables, several selections and domain contents; the "
         "MULTISET of rows must equal the projection of every satisfying total assignment; the() and "
@@ -23,7 +23,7 @@ RULE = ("all queries of the negation-normal conjunctive/else-if fragment with <=
         "with at least one solution and at least one non-solution")
 ASSUMPTIONS = ["row order is not compared (C10 compares prefixes)", "CPython 3.12"]
 BOUNDS = {"quick": {"leaves_2vars": 3, "leaves_3vars": 2},
-          "thorough": {"leaves_2vars": 3, "leaves_2vars_core_atoms": 4, "core_atoms": 4, "leaves_3vars": 3}}
+          "thorough": {"leaves_2vars": 3, "leaves_2vars_core_atoms": 4, "core_atoms": 6, "leaves_3vars": 3}}
 CHUNK = 300
 RECYCLE_CHUNKS = 6
 BUDGET_S = {"quick": 600, "thorough": 4000}
@@ -101,9 +101,10 @@ def cases(tier, seed):
                         out.append((q, d, "counts"))
                     if n <= 2 and d[0] in ("D5", "sub3") and kind == "entity":
                         out.append((q, d, "reuse"))
-    # thorough: 4 leaves over a core of four atoms (one per kind: literal comparison, join, order, Predicate)
+    # thorough: 4 leaves over a core of six atoms (literal comparisons on both variables, join, order, Predicate,
+    # symbolic function)
     if BOUNDS[tier].get("leaves_2vars_core_atoms"):
-        core = [ATOMS2[i] for i in (0, 3, 4, 6)]
+        core = [ATOMS2[i] for i in (0, 2, 3, 4, 6, 8)]
         memo = {}
         for c in nnf_conds(BOUNDS[tier]["leaves_2vars_core_atoms"], core, memo):
             for kind, sels in SELS2[:3]:
